@@ -20,11 +20,21 @@ func (r *UnitResult) buildQuery(ob *Obligation, prelude string, models bool) str
 	if models {
 		b.WriteString("(set-option :produce-models true)\n")
 	}
-	b.WriteString(prelude)
+	pre, axioms := prelude, ""
+	if k := strings.Index(prelude, ";;AXIOMS\n"); k >= 0 {
+		pre, axioms = prelude[:k], prelude[k:]
+	}
+	b.WriteString(pre)
 	t := r.tr
 	for _, v := range t.allVars {
 		fmt.Fprintf(&b, "(declare-const %s %s)\n", v.at(0).S, v.Sort)
 	}
+	for _, v := range t.V.axiomVars {
+		if _, dup := t.named[v.Name]; !dup {
+			fmt.Fprintf(&b, "(declare-const %s %s)\n", v.at(0).S, v.Sort)
+		}
+	}
+	b.WriteString(axioms)
 	anc := ancestors(ob.Block)
 	for _, a := range anc {
 		for _, d := range a.Decls {
